@@ -637,10 +637,10 @@ def execute(args: List[str] = None) -> List[str]:
         "rebuild",
         "recheck",
     ]
-    if not any(i for i in all_commands if i in args):
-        start = 0
-        while args[start] in ["-v", "-q"]:
-            start += 1
+    start = 0
+    while start < len(args) and args[start] in ["-v", "-q"]:
+        start += 1
+    if start == len(args) or args[start] not in all_commands:
         args.insert(start, "create")
 
     args = parser.parse_args(args)
